@@ -62,6 +62,10 @@ type MPeriod struct {
 	ExpStarts         int
 	AsyncCancel       bool
 	Events            []int // N of the events emitted on it, in source order
+	// StaleFinish: the start goroutine finished (Start returned, or hooks failed) after the
+	// period had ended. What it does then (getTrigger / doneTriggerFromUpdater by trigger id)
+	// is not observable from outside, so the moment it is over is unknown.
+	StaleFinish, StaleFinishErr bool
 }
 
 type removedRec struct {
@@ -319,6 +323,9 @@ func (m *Model) startEnter(p *MPeriod) (returned bool, err string) {
 // startResult models what follows the hooks/Start in the start goroutine.
 func (m *Model) startResult(p *MPeriod, err, why string) {
 	p.Pending = PendNone
+	if !p.Live {
+		p.StaleFinish, p.StaleFinishErr = true, err != ""
+	}
 	if err != "" {
 		m.see("start-failure")
 		for _, i := range append([]int(nil), p.Subs...) {
@@ -406,6 +413,13 @@ func (m *Model) Begin(st Step, reached bool) {
 			if q.Key == st.Key {
 				m.see("trigger-key-recreated")
 				break
+			}
+		}
+		for _, q := range m.Periods {
+			if q.Key == st.Key && q.StaleFinish {
+				// the earlier period's start goroutine may still be on its way to act on this key
+				m.see("key-recreated-after-stale-start-finish")
+				m.shape(Shape{Finding: FStaleStart, Sub: -1, Period: p.Idx, ExtraInc: !q.StaleFinishErr, Teardown: q.StaleFinishErr})
 			}
 		}
 		m.Periods = append(m.Periods, p)
